@@ -8,6 +8,14 @@
 #include <cstdlib>
 #include <limits>
 #include <random>
+#ifdef TAPKEE_VERIF
+#define TAPKEE_VERIF_SHUFFLE_HOOK 1
+#include <cstddef>
+#include <iterator>
+#include <numeric>
+#include <type_traits>
+#include <vector>
+#endif
 
 namespace tapkee
 {
@@ -53,8 +61,102 @@ inline ScalarType gaussian_random()
 #endif
 }
 
+#ifdef TAPKEE_VERIF
+// Verification hook H1 (add-only; absent unless TAPKEE_VERIF is defined).
+// Makes tapkee::random_shuffle seedable and observable so that a run that went through
+// random_shuffle (SPE, random landmark selection) can be replayed exactly:
+//  * once a seed was supplied (verif_shuffle_reseed(s), or writing through verif_shuffle_seed()),
+//    the c-th call of random_shuffle (c = 0, 1, ...) uses std::mt19937 seeded with
+//    std::seed_seq{seed, c} instead of std::random_device;
+//  * if an observer is installed it is told, after every call, the permutation that was applied
+//    (from[i] = position before the shuffle of the element now at position i, so
+//    after[i] == before[from[i]]) and, for integral element types, the shuffled values.
+// With neither a seed nor an observer the function behaves exactly as without the hook.
+struct verif_shuffle_hook
+{
+    bool seeded = false;      // use (seed, calls) instead of std::random_device
+    unsigned seed = 0;        // harness-supplied seed
+    unsigned calls = 0;       // number of hooked random_shuffle calls since the last reseed
+    unsigned last_device = 0; // value drawn from std::random_device by the last unseeded call
+    void (*observer)(const std::size_t* from, const long long* values, std::size_t n, void* user) = nullptr;
+    void* user = nullptr;
+};
+
+inline verif_shuffle_hook& verif_shuffle()
+{
+    static verif_shuffle_hook hook;
+    return hook;
+}
+
+// `tapkee::verif_shuffle_seed() = s;` switches to the seeded generator (call counter untouched)
+inline unsigned& verif_shuffle_seed()
+{
+    verif_shuffle().seeded = true;
+    return verif_shuffle().seed;
+}
+
+// seed and restart the call counter: the following run is a function of `seed` only
+inline void verif_shuffle_reseed(unsigned seed)
+{
+    verif_shuffle().seeded = true;
+    verif_shuffle().seed = seed;
+    verif_shuffle().calls = 0;
+}
+
+// back to std::random_device (the observer, if any, stays installed)
+inline void verif_shuffle_unseed()
+{
+    verif_shuffle().seeded = false;
+}
+
+template <class RAI> inline bool verif_random_shuffle(RAI first, RAI last)
+{
+    verif_shuffle_hook& hook = verif_shuffle();
+    if (!hook.seeded && hook.observer == nullptr)
+        return false;
+    std::mt19937 urng;
+    if (hook.seeded)
+    {
+        std::seed_seq sequence{hook.seed, hook.calls};
+        urng.seed(sequence);
+    }
+    else
+    {
+        std::random_device rng;
+        hook.last_device = rng();
+        urng.seed(hook.last_device);
+    }
+    ++hook.calls;
+    if (hook.observer == nullptr)
+    {
+        std::shuffle(first, last, urng);
+        return true;
+    }
+    // std::shuffle's swaps depend on the generator and the length only: shuffling 0..n-1 with a
+    // copy of the generator yields the permutation that the real call applies to [first, last)
+    typedef typename std::iterator_traits<RAI>::difference_type difference_type;
+    typedef typename std::iterator_traits<RAI>::value_type value_type;
+    const std::size_t n = static_cast<std::size_t>(last - first);
+    std::vector<difference_type> from_signed(n);
+    std::iota(from_signed.begin(), from_signed.end(), difference_type(0));
+    std::mt19937 urng_copy(urng);
+    std::shuffle(from_signed.begin(), from_signed.end(), urng_copy);
+    std::shuffle(first, last, urng);
+    std::vector<std::size_t> from(from_signed.begin(), from_signed.end());
+    std::vector<long long> values;
+    if constexpr (std::is_integral<value_type>::value)
+        values.assign(first, last);
+    hook.observer(from.data(), values.empty() ? nullptr : values.data(), n, hook.user);
+    return true;
+}
+
+#endif
 template <class RAI> inline void random_shuffle(RAI first, RAI last)
 {
+#ifdef TAPKEE_VERIF
+    if (verif_random_shuffle(first, last))
+        return;
+#endif
     std::random_device rng;
     std::mt19937 urng(rng());
     std::shuffle(first, last, urng);
